@@ -167,9 +167,13 @@ UNIT = {"xyznonl.xyz": 10.0, "dcdfix.dcd": 10.0, "dcd0.dcd": 10.0, "h5": 1.0, "x
         "lammpstrj": 10.0, "dtr": 10.0, "arc": 10.0, "gro": 1.0, "lh5": 1.0, "netcdf": 10.0}
 
 
-def open_file(fmt, path, n_atoms):
+def open_file(fmt, path, n_atoms, chunk=None):
     if fmt in ("mdcrd", "crd"):
         return md.open(path, n_atoms=n_atoms)
+    if chunk is not None and fmt in ("xtc", "trr"):
+        # read() without n_frames loops over _read(chunk); chunk = max(|int((approx - counter) * multiplier)|, min_chunk_size):
+        # with the multiplier at its minimum the chunk is min_chunk_size for every small file
+        return md.open(path, min_chunk_size=int(chunk), chunk_size_multiplier=0.01)
     return md.open(path)
 
 
@@ -183,12 +187,71 @@ def first_array(res):
     return res
 
 
+def _copy_over(src, dst, replace):
+    """write the file (or directory, for dtr) `src` at the path `dst`: in place (same inode, truncated and rewritten)
+    or as a new file moved over the old name"""
+    import shutil
+    if os.path.isdir(src):
+        if os.path.exists(dst):
+            shutil.rmtree(dst)
+        shutil.copytree(src, dst)
+    elif replace:
+        shutil.copyfile(src, dst + ".new")
+        os.replace(dst + ".new", dst)
+    else:
+        shutil.copyfile(src, dst)
+
+
+REUSE_SEQ = [0]
+
+
+def prepare_reuse(case, paths, n_atoms):
+    """path reuse: a DIFFERENT trajectory (other frame count, other atom count, hence other byte layout) is written at a
+    path, opened, read and closed (modes "closed": rewritten in place, "closed-replace": replaced by a new inode) or left
+    open (mode "open-replace": the old handle keeps the old inode); then the path is written again with the case's trajectory.  The case's handles are opened on that path afterwards.  Whatever a reader remembers
+    about a path beyond the life of a handle (offset tables, lengths) is then stale.
+    -> (path, old handle or None)"""
+    fmt = case["fmt"]
+    ru = case["reuse"]
+    d = os.getcwd()
+    REUSE_SEQ[0] += 1
+    P = os.path.join(d, "reuse%d.%s" % (REUSE_SEQ[0], fmt))
+    first, _top = make_files(ru["T0"], ru["n_atoms0"], [fmt], d, tag="ru")
+    _copy_over(first[fmt], P, False)
+    old = None
+    try:
+        signal.alarm(20)
+        old = open_file(fmt, P, ru["n_atoms0"], case.get("chunk"))
+        old.read()
+        for step in (lambda: old.tell(), lambda: len(old), lambda: old.seek(0), lambda: old.read(n_frames=2), lambda: old.seek(1),
+                     lambda: old.read(n_frames=1)):
+            try:
+                step()
+            except Exception:  # noqa  (arc cannot seek, mdcrd has no len, ...)
+                pass
+    except Exception:  # noqa
+        pass
+    finally:
+        signal.alarm(0)
+    if ru["mode"] in ("closed", "closed-replace") and old is not None:
+        old.close()
+        old = None
+    _copy_over(paths[fmt], P, ru["mode"] != "closed")
+    return P, old
+
+
 def run_cursor(case, paths, n_atoms):
     fmt = case["fmt"]
+    old_handle = None
+    if case.get("reuse"):
+        P, old_handle = prepare_reuse(case, paths, n_atoms)
+        paths = dict(paths)
+        paths[fmt] = P
     nh = case.get("handles", 1)
     # one atom selection for all handles, or one per handle ("atom_indices_h")
     ais = case.get("atom_indices_h") or [case.get("atom_indices")] * nh
-    hs = [open_file(fmt, paths[fmt], n_atoms) for _ in range(nh)]
+    chunk = case.get("chunk")
+    hs = [open_file(fmt, paths[fmt], n_atoms, chunk) for _ in range(nh)]
     outs = []
     try:
         for h, op, arg in case["ops"]:
@@ -199,7 +262,7 @@ def run_cursor(case, paths, n_atoms):
                 if op == "reopen":
                     # close this handle and open the file again (the other handle stays as it is)
                     f.close()
-                    hs[h] = open_file(fmt, paths[fmt], n_atoms)
+                    hs[h] = open_file(fmt, paths[fmt], n_atoms, chunk)
                     outs.append({"ok": True})
                 elif op == "read":
                     res = f.read(n_frames=arg, atom_indices=ai)
@@ -230,7 +293,7 @@ def run_cursor(case, paths, n_atoms):
             finally:
                 signal.alarm(0)
     finally:
-        for f in hs:
+        for f in hs + ([old_handle] if old_handle is not None else []):
             try:
                 f.close()
             except Exception:
